@@ -44,6 +44,16 @@ Definition check_items (c : bounds * list Z * res (list (list Z * Z))) : bool :=
   res_eqb (list_eqb (pair_eqb (list_eqb Z.eqb) Z.eqb))
           (bind (lattice_spec bs spec) (fun p => items (fst p) (snd p))) r.
 
+(* LatticeSpec(bounds, spec)[tuple] and [int] *)
+Definition check_spec_getitem (c : bounds * list Z * (list Z + Z) * res Z) : bool :=
+  let '(bs, spec, arg, r) := c in
+  res_eqb Z.eqb
+    (bind (lattice_spec bs spec) (fun p =>
+       match arg with
+       | inl t => spec_getitem_tuple (fst p) (snd p) t
+       | inr i => py_list_get (snd p) i
+       end)) r.
+
 Definition fillid_eqb (a b : fillid) : bool :=
   match a, b with
   | FNone, FNone => true
